@@ -81,19 +81,24 @@ def handle (f : Fields) : String :=
     let border := f.list "border"
     let histCfg := cfgOf false
     let cfg := cfgOf (f.bool "ow")
+    -- `coll`: the rotation AFTER the i-th asks for the i-th's serial (its object is recorded for key i)
+    let coll := f.has "coll"
     -- state before the operation
-    let st0 : Store := if i = 0 then [] else storeAfter histCfg border (i - 1)
+    let st0 : Store := if coll then storeAfter histCfg border i else if i = 0 then [] else storeAfter histCfg border (i - 1)
     let st0 := if f.has "plant" then (f.get "plant", Obj.der ⟨"planted", 0, 99, 0⟩) :: st0 else st0
     let m := (storedManifest st0).getD Manifest.empty
-    let mu := if i = 0 then bootMut "root" "sk" rootCert firstCert else rotMut (keyName i) (rotCert i)
+    let mu := if coll then rotMut (keyName (i + 1)) ⟨"sig", 2 + i, 2 + i, 0⟩
+      else if i = 0 then bootMut "root" "sk" rootCert firstCert else rotMut (keyName i) (rotCert i)
     let names := f.list "order"
-    let order := orderOf names mu.certs
+    -- (a refused upload is not probed, so the harness cannot read the visiting order off the storage log: the
+    --  one pending certificate of the colliding rotation is visited)
+    let order := if coll then mu.certs else orderOf names mu.certs
     let log := finalizeLog cfg st0 m mu order
     let ws := writesOf log
     let cons := (List.range (ws.length + 1)).map fun k => consistentB cfg (applyPrefix k ws st0)
     let final := applyWrites ws st0
     -- cross-check with the call-by-call model when the run is a plain complete one
-    let agree := f.has "plant" || showStore (runStoreAfter histCfg border i) == showStore (if i = 0 then final else storeAfter histCfg border i)
+    let agree := f.has "plant" || coll || showStore (runStoreAfter histCfg border i) == showStore (if i = 0 then final else storeAfter histCfg border i)
     s!"perm={b2s (isPerm names mu.certs)} log={",".intercalate (log.map showOp)} cons={bits cons} man={showManifest final} agree={b2s agree}"
   | _ => "bad-op"
 
